@@ -272,6 +272,10 @@ impl<T: Clone + Into<Vec<u8>>> FindNodeContext<T> {
             };
         }
 
+        // Recount the pending responses instead of decrementing the counter: a peer that exceeded
+        // the timeout must stop counting towards the parallelism factor exactly once, not on every
+        // call of this function (and once more when its response finally arrives).
+        let mut pending_responses = self.pending.len();
         for (peer, instant) in self.pending.values() {
             if now().saturating_duration_since(*instant) > self.peer_timeout {
                 tracing::trace!(
@@ -281,9 +285,10 @@ impl<T: Clone + Into<Vec<u8>>> FindNodeContext<T> {
                     elapsed = ?instant.elapsed(),
                     "peer no longer counting towards parallelism factor"
                 );
-                self.pending_responses = self.pending_responses.saturating_sub(1);
+                pending_responses = pending_responses.saturating_sub(1);
             }
         }
+        self.pending_responses = pending_responses;
 
         // At this point, we either have pending responses or candidates to query; and we need more
         // results. Ensure we do not exceed the parallelism factor.
